@@ -288,11 +288,15 @@ func propC02(r *Run) {
 			if cat == catInvalid {
 				m.Supported = false
 				m.Raw = nc
-				lst, lerr := d.List()
+				var lst UserList
+				var lerr error
+				w.guard("list", func() { lst, lerr = d.List() })
 				if _, shown := lst[u]; shown || lerr != nil {
 					r.Fail("unsupported/listed/"+cor.name, "after %s user %s must be hidden from list (err=%v)", cor.name, u, lerr)
 				}
-				fl, ferr := d.ListFull()
+				var fl UserListFull
+				var ferr error
+				w.guard("list-full", func() { fl, ferr = d.ListFull() })
 				if e, shown := fl[u]; !shown || e.IsSupported || ferr != nil {
 					r.Fail("unsupported/list-full/"+cor.name, "after %s list-full must show %s as unsupported: shown=%v entry=%+v err=%v", cor.name, u, shown, e, ferr)
 				}
